@@ -44,6 +44,26 @@ chk("C20","explicit-state enumeration (E1/E2): every transition played into the 
     "Every visited state and every legal move: Hash/Fen/PGN lines and the parsed diagram against the model successor; every record token parsed under the record grammar and compared part by part; the real `show` command on a slice.",
     MODEL, "5/C20", "E1+E2")
 
+SRCH = "search driven in-process through get_best_move_until_stop / get_best_move_entry with the node-entry hook H2 (poll counter, stop point, depth monitor, table-less switch); legality judged by the reference model"
+chk("C06","operation-sequence exploration (E3): all words over {search(position_i, depth_j), NEWGAME} up to length 3 on one shared transposition table, plus every small position once as a root",
+    "Every search of every word over 8 families of ~12 related positions (transpositions, other side to move, changed rights, shuffled history that triggers the repetition filter, single-reply, checkmated, stalemated, foreign positions) must announce a model-legal move, none only without legal moves; caller's game unchanged.",
+    SRCH+"; depth limits <= 3 (4 thorough)", "5/C06", "E3")
+chk("C07","stop-point enumeration (E4): for every (root, depth, fresh/warm table) one run per node-entry poll index 0..=P with the flag flipped inside that poll",
+    "Every instant at which the stop flag can flip relative to search progress is enumerated for ~3000 (root, depth, table) cases; each run must return a legal move when one exists, enter no further node after the flip, and leave the caller's game unchanged.",
+    SRCH+"; 'promptly' in virtual time (node entries after the flip)", "5/C07", "E4")
+chk("C08","operation-sequence exploration (E3) with a depth monitor in the node hook; the whole limit axis 1..255 with three prior histories and unlimited searches under poll watchdogs on tiny roots",
+    "No search with limit N may enter a node of iteration depth > N whatever earlier searches left in the table (all words up to length 2/3 over 8 families; every listed limit x {no history, S(p,N+1), S(p,255)} on tiny roots); unlimited searches on 75 tiny roots run to the engine's own end or the poll budget without crash, and a follow-up search on the same table still works.",
+    SRCH, "5/C08", "E3")
+chk("C09","exhaustive comparison over enumerated roots: table-less optimised search vs an unpruned unordered reference negamax on the same tree, five history-table states",
+    "For every root of the listed slices (~70k quick) and depths 1-3 (4) the value returned by get_best_move_entry with all table lookups forced to miss equals the exhaustive reference value after clamping mate-range scores, for all five history pre-fills.",
+    "reference negamax built on the engine's public generator/evaluation (C01/C16 establish those); skip rule as stated in the property", "5/C09", "E1")
+chk("C10","explicit-state enumeration (E1) with a reference mate solver classifying every member; every mating / dead root searched by the real engine",
+    "Every member of the listed universes is classified by the model's AND/OR solver; all mate-in-1, forced-mate-in-2, checkmated and stalemated members are searched from a fresh table (unlimited and with depth 3/5): mate in one played and search stops by iteration 3, forced mate kept and search stops by iteration 5, dead roots yield no move.",
+    MODEL, "5/C10", "E1")
+chk("C18","operation-sequence exploration (E3): every `info pv` line of every search of every word replayed on the reference model",
+    "All principal variations printed during the C06 exploration (~370k non-empty lines quick), including those reconstructed from entries left by other searches, must be playable move by move on the reference model.",
+    SRCH, "5/C18", "E3")
+
 def main():
     import os
     checks=[C[i] for i in IDS if i in C and os.environ.get('ONLY','')=='' or i in os.environ.get('ONLY','').split(',') and i in C]
@@ -55,7 +75,9 @@ def main():
         baseline_off_cmd="cd /repo && cargo test --workspace --no-fail-fast --offline",
         source_commits=HOOK_COMMITS, add_only=True),
       engines=[
-        dict(name="E1+E2",path="/verif/harness/src/explore.rs",serves_properties=["C01","C02","C03","C04","C05","C11","C12","C16","C20"],kind_free_text="explicit-state enumeration of closed position universes and layered BFS with the real push as transition function, lock-step against the reference model"),
+        dict(name="E1+E2",path="/verif/harness/src/explore.rs",serves_properties=["C01","C02","C03","C04","C05","C09","C10","C11","C12","C16","C20"],kind_free_text="explicit-state enumeration of closed position universes and layered BFS with the real push as transition function, lock-step against the reference model"),
+        dict(name="E3",path="/verif/harness/src/props/e3.rs",serves_properties=["C06","C08","C18"],kind_free_text="operation-sequence explorer over search histories sharing one transposition table (DFS with table clones == stateless re-execution)"),
+        dict(name="E4",path="/verif/harness/src/props/c07.rs",serves_properties=["C07"],kind_free_text="stop-point enumerator: one execution per node-entry poll index"),
         dict(name="E6",path="/verif/harness/src/props/c17.rs",serves_properties=["C12","C17","C05"],kind_free_text="exhaustive input-neighbourhood enumeration"),
       ],
       checks=checks, not_applicable=na,
